@@ -226,10 +226,30 @@ def product(Heap, cap, policy, nodes, edges, inits, rep, budget_s=None):
 # ---------------------------------------------------------------------------------------------------
 # random histories (B)
 # ---------------------------------------------------------------------------------------------------
-def record_history(Heap, cap, policy, rng, nops, ncost):
+VMAPS = ("rank", "negative", "fractional", "huge", "infinite", "subnormal")
+
+
+def cost_value(vmap, c, ncost):
+    """The heap only compares costs: the trace records a cost's rank c in 0..ncost-1, the real heap is given a strictly increasing
+    image of it - negative integers, fractions around zero, magnitudes near the float range, infinite endpoints, subnormals."""
+    if vmap == "negative":
+        return c - ncost
+    if vmap == "fractional":
+        return 0.25 * c - 0.25 * (ncost // 2)
+    if vmap == "huge":
+        return (c - ncost // 2) * 1e300 if ncost <= 100 else float(c)
+    if vmap == "infinite":
+        return float("-inf") if c == 0 else (float("inf") if c == ncost - 1 else float(c))
+    if vmap == "subnormal":
+        return c * 5e-324
+    return c
+
+
+def record_history(Heap, cap, policy, rng, nops, ncost, vmap="rank"):
     h = Heap(cap, policy)
     init = [rng.randrange(ncost) for _ in range(cap)]
-    h.cost = list(init)
+    V = lambda c: cost_value(vmap, c, ncost)
+    h.cost = [V(c) for c in init]
     key = list(init)
     col = ["W"] * cap
     ops = []
@@ -280,7 +300,7 @@ def record_history(Heap, cap, policy, rng, nops, ncost):
         elif op == "updw":
             e = rng.choice(white)
             c = rng.randrange(ncost)
-            h.update(e, c)
+            h.update(e, V(c))
             key[e] = c
             col[e] = "G"
             ops.append({"op": "upd", "e": e, "c": c, "ret": 0, **f})
@@ -288,13 +308,13 @@ def record_history(Heap, cap, policy, rng, nops, ncost):
             e = rng.choice(gray)
             cands = [c for c in range(ncost) if not better(key[e], c)]
             c = rng.choice(cands)
-            h.update(e, c)
+            h.update(e, V(c))
             key[e] = c
             ops.append({"op": "upd", "e": e, "c": c, "ret": 0, **f})
         elif op == "set":
             e = rng.choice(nong)
             c = rng.randrange(ncost)
-            h.cost[e] = c
+            h.cost[e] = V(c)
             key[e] = c
             ops.append({"op": "set", "e": e, "c": c, "ret": 0, **f})
     # drain
@@ -307,7 +327,7 @@ def record_history(Heap, cap, policy, rng, nops, ncost):
         ops.append({"op": "rem", "e": 0, "c": 0, "ret": rr, **f})
         if rr == -1:
             break
-    return {"cap": cap, "policy": policy, "init": init, "ops": ops, "fin": {**flags(), "drained": 1}}
+    return {"cap": cap, "policy": policy, "init": init, "ops": ops, "fin": {**flags(), "drained": 1}, "vmap": vmap, "ncost": ncost}
 
 
 _ACT = re.compile(r"^\\\* <(\w+)(?:\(([-\d,]*)\))? line")
@@ -451,7 +471,7 @@ def run(tier, seed):
     nv = 0
     for cap in (1, 2, 4, 7, 15, 20, 40):
         for pol in ("min", "max"):
-            trs = [record_history(Heap, cap, pol, rng, rng.randrange(10, 60 if cap < 15 else (300 if cap < 40 else 500)), rng.choice([2, 3, 5, 50])) for _ in range(nh)]
+            trs = [record_history(Heap, cap, pol, rng, rng.randrange(10, 60 if cap < 15 else (300 if cap < 40 else 500)), rng.choice([2, 3, 5, 50]), vmap=VMAPS[t % len(VMAPS)]) for t in range(nh)]
             rep.sample({"cap": cap, "policy": pol, "first_ops": trs[0]["ops"][:6]}, limit=3)
             nv += judge_histories(rep, cap, pol, trs, "%d%s" % (cap, pol))
     # ---- C (ii): behaviours generated by TLC (-simulate) for larger capacities, replayed and judged
@@ -461,7 +481,7 @@ def run(tier, seed):
             raise H.MachineryError("tlc -simulate produced only %d behaviours" % len(sims))
         rep.count("simulated_behaviours_replayed", len(sims))
         judge_histories(rep, cap, pol, sims, "sim%d%s" % (cap, pol))
-    rep.cov["rule"] = "product states = distinct (abstract PQ state, real heap arrays) pairs reached; histories = random op sequences in PQ's domain with heavy ties"
+    rep.cov["rule"] = "product states = distinct (abstract PQ state, real heap arrays) pairs reached; histories = random op sequences in PQ's domain with heavy ties, costs handed to the real heap as ranks / negative / fractional / near-overflow / infinite / subnormal values (the trace records ranks)"
     rep.assumptions = [
         "TLC, CommunityModules Json/IOUtils",
         "exhaustive up to Cap<=%d, costs {0,1,2}; beyond that sampled histories (cap<=20, <=300 ops)" % max(caps),
@@ -481,11 +501,14 @@ def replay(path):
     if inp["kind"] == "heap_trace":
         ops_in = [(o["op"], o["e"], o["c"]) for o in inp["trace"]["ops"]]
         init = inp["trace"]["init"]
+        vmap, ncost = inp["trace"].get("vmap", "rank"), inp["trace"].get("ncost", 3)
     else:
         ops_in = [(o[0], o[1], o[2]) for o in inp["ops"]]
         init = inp["init"]
+        vmap, ncost = "rank", 3
+    V = lambda c: cost_value(vmap, c, ncost)
     h = Heap(cap, pol)
-    h.cost = list(init)
+    h.cost = [V(c) for c in init]
     ops = []
     for op, e, c in ops_in:
         f = {"em": 1 if h.is_empty() else 0, "fu": 1 if h.is_full() else 0}
@@ -496,10 +519,10 @@ def replay(path):
             r = h.insert(e)
             ops.append({"op": "ins", "e": e, "c": 0, "ret": 1 if r is True else 0, **f})
         elif op == "upd":
-            h.update(e, c)
+            h.update(e, V(c))
             ops.append({"op": "upd", "e": e, "c": c, "ret": 0, **f})
         else:
-            h.cost[e] = c
+            h.cost[e] = V(c)
             ops.append({"op": "set", "e": e, "c": c, "ret": 0, **f})
     tr = {"cap": cap, "policy": pol, "init": init, "ops": ops, "fin": {"em": 1 if h.is_empty() else 0, "fu": 1 if h.is_full() else 0, "drained": 0}}
     n = judge_histories(rep, cap, pol, [tr], "replay")
